@@ -19,7 +19,13 @@
 (*          accumulates: the loop has TWO back edges, only one carries the   *)
 (*          update — NOT an arithmetic progression) |                        *)
 (*          "revsub" (the update is i = step - i: NOT an arithmetic          *)
-(*          progression; an analysis that says it is one is wrong)           *)
+(*          progression; an analysis that says it is one is wrong) |         *)
+(*          "skiptest" (post-clause loop whose body starts with              *)
+(*          `if i%2 == 0 { continue }` BEFORE the exit test: the test is not  *)
+(*          evaluated on every iteration, the loop runs past the limit) |    *)
+(*          "innerexit" (the body holds an inner loop that leaves the OUTER  *)
+(*          loop, by return, when i = 5: a second way out that is not among   *)
+(*          the outer loop's own blocks)                                     *)
 (*   width  0 = int (no wrap-around in range) | 8 = uint8 (mod 256)          *)
 (* and arguments a (start) and n (limit).  Variables of the loop:            *)
 (*   i  the loop variable,  s  an accumulator (s += 2*i + 1 in the body).    *)
@@ -34,7 +40,7 @@ CONSTANTS MaxIter, Steps, Starts, Limits, Widths, Export
 
 Cmps == {"<", "<=", ">", ">=", "!="}
 Shapes == [pos : {"top", "bottom"}, cmp : Cmps, stay : BOOLEAN, ivLeft : BOOLEAN, step : Steps,
-           extra : {"none", "cont", "condupd", "revsub", "partupd"}, width : Widths]
+           extra : {"none", "cont", "condupd", "revsub", "partupd", "skiptest", "innerexit"}, width : Widths]
 
 VARIABLES sh, a, n, pc, i, s, hdr, iters
 vars == <<sh, a, n, pc, i, s, hdr, iters>>
@@ -51,6 +57,7 @@ Valid(shape, st, lim) ==
   /\ (shape.extra = "cont" => shape.pos = "top")      \* `continue` is generated for the for-clause form only
   /\ (shape.extra = "revsub" => shape.step > 0 /\ shape.pos = "top")
   /\ (shape.extra = "partupd" => shape.pos = "top")
+  /\ (shape.extra \in {"skiptest", "innerexit"} => shape.pos = "top")
 
 Init == /\ sh \in Shapes /\ a \in Starts /\ n \in Limits /\ Valid(sh, a, n)
         /\ pc = "hdr" /\ i = a /\ s = 0 /\ hdr = <<>> /\ iters = 0
@@ -59,21 +66,31 @@ Init == /\ sh \in Shapes /\ a \in Starts /\ n \in Limits /\ Valid(sh, a, n)
 Header ==
   /\ pc = "hdr" /\ Len(hdr) <= MaxIter
   /\ hdr' = Append(hdr, [i |-> i, s |-> s])
-  /\ pc' = IF sh.pos = "top" THEN (IF Test(i) THEN "body" ELSE "exit") ELSE "body"
+  /\ pc' = IF sh.extra = "skiptest" /\ i % 2 = 0 THEN "skip"
+           ELSE IF sh.pos = "top" THEN (IF Test(i) THEN "body" ELSE "exit") ELSE "body"
   /\ UNCHANGED <<sh, a, n, i, s, iters>>
 
+\* skiptest: `continue` before the exit test — straight to the update
+Skip ==
+  /\ pc = "skip"
+  /\ i' = Wrap(i + sh.step, sh.width) /\ pc' = "hdr"
+  /\ UNCHANGED <<sh, a, n, s, hdr, iters>>
+
 \* the body: entered once per iteration; `continue` skips the accumulation, not the update
+EarlyOut == sh.extra = "innerexit" /\ i = 5
 Body ==
   /\ pc = "body"
   /\ iters' = iters + 1
-  /\ s' = IF sh.extra = "cont" /\ i % 3 = 0 THEN s
-          ELSE IF sh.extra = "partupd" /\ (iters + 1) % 3 # 0 THEN s ELSE s + 2 * i + 1
-  /\ i' = IF sh.extra = "revsub" THEN Wrap(sh.step - i, sh.width)
-          ELSE IF sh.extra = "partupd" /\ (iters + 1) % 3 = 0 THEN i ELSE Wrap(i + sh.step, sh.width)
-  /\ pc' = IF sh.pos = "bottom" THEN (IF Test(i') THEN "hdr" ELSE "exit") ELSE "hdr"
   /\ UNCHANGED <<sh, a, n, hdr>>
+  /\ IF EarlyOut
+     THEN pc' = "exit" /\ UNCHANGED <<i, s>>
+     ELSE /\ s' = IF sh.extra = "cont" /\ i % 3 = 0 THEN s
+                  ELSE IF sh.extra = "partupd" /\ (iters + 1) % 3 # 0 THEN s ELSE s + 2 * i + 1
+          /\ i' = IF sh.extra = "revsub" THEN Wrap(sh.step - i, sh.width)
+                  ELSE IF sh.extra = "partupd" /\ (iters + 1) % 3 = 0 THEN i ELSE Wrap(i + sh.step, sh.width)
+          /\ pc' = IF sh.pos = "bottom" THEN (IF Test(i') THEN "hdr" ELSE "exit") ELSE "hdr"
 
-Next == Header \/ Body
+Next == Header \/ Body \/ Skip
 Spec == Init /\ [][Next]_vars
 
 Terminated == pc = "exit"
